@@ -88,6 +88,12 @@ class Harness:
         """-> {region name: z3 Bool over the inputs}; inputs inside a region listed in
         known_findings.json are excluded from the 'new violation' query"""
         return {}
+    def probes(self, inp):
+        """-> list of (label, z3 Bool over the inputs): extra inputs of this path to OBSERVE on the real build, next to the
+        path's witness - one satisfying assignment per probe that is compatible with the path condition.  Probes are not
+        part of the solver's verdict; they aim the real-build observation at corners the model cannot see into
+        (uninterpreted reducers, compiled kernels)"""
+        return []
     def conformance_ignore(self, real_json, pred_json):
         """hook: return True to skip the model-vs-real comparison for this witness"""
         return False
@@ -248,6 +254,20 @@ def make_path_fn(h, known_regions, do_replay=True):
                     res["cex"] = symcodec.encode(inp, m1)
                     res["cex_pred"] = symcodec.encode_out(out, m1)
                     res["cex_failing"] = _failing(clauses, m1)
+            probes = []
+            for label, cond in h.probes(inp):
+                rp, mp = ctx.check(_to_bool(cond))
+                if rp != "sat": continue
+                pin = symcodec.encode(inp, mp)
+                rr = replay(h.opname, pin)
+                holds, bad = concrete_verdict(h, pin, rr["out"])
+                rec = {"label": label, "holds": holds}
+                if not holds:
+                    pi = symcodec.decode(pin)
+                    rec.update(inputs=pin, failing=bad, out=rr["out"],
+                               in_region=[k for k, v in h.regions(pi).items() if k in known_regions and z3.is_true(z3.simplify(_to_bool(v)))])
+                probes.append(rec)
+            if probes: res["probes"] = probes
             if "known" in res:
                 rr = replay(h.opname, res["known"]["cex"])
                 holds, bad = concrete_verdict(h, res["known"]["cex"], rr["out"])
